@@ -113,38 +113,57 @@ def judge (ops outs : List String) : String :=
       match parseOp? p.1 with
       | some op => some (op, parseOut op p.2)
       | none => none
-    let rec go (r : Ref) (ghost : List (Nat × Smp)) (known : Option String) (h : List (Op × Out)) (k : Nat) : String :=
+    let rec go (r : Ref) (ghost : List (Nat × Smp)) (delEver : List (Nat × Smp)) (phase : Nat)
+        (known : Option String) (h : List (Op × Out)) (k : Nat) : String :=
+      -- phase: 0 nothing, 1 a delete happened, 2 … then CleanTombstones, 3 … then a restart
       match h with
       | [] => known.getD "ok"
       | (op, o) :: rest =>
         match r.step op o with
         | some r' =>
+          let hitOf := fun (sel : Option Nat) (i : Nat) => match sel with | none => true | some j => i == j
           let ghost' := match op with
             | .del a b sel =>
-              let hit : Nat → Bool := fun i => match sel with | none => true | some j => i == j
               r.store.foldl (fun g p =>
                 match p.2.getLast? with
                 | some l =>
                   -- the ghost is the newest PHYSICAL sample: never replace it by an older one
                   let older := g.any fun q => q.1 == p.1 && decide (l.t < q.2.t)
-                  if hit p.1 && decide (a ≤ l.t ∧ l.t ≤ b) && !older then (p.1, l) :: g.filter (·.1 ≠ p.1) else g
+                  if hitOf sel p.1 && decide (a ≤ l.t ∧ l.t ≤ b) && !older then (p.1, l) :: g.filter (·.1 ≠ p.1) else g
                 | none => g) ghost
             | _ => ghost
-          go r' ghost' known rest (k + 1)
+          let delEver' := match op with
+            | .del a b sel =>
+              delEver ++ r.store.flatMap fun p =>
+                if hitOf sel p.1 then (p.2.filter fun x => decide (a ≤ x.t ∧ x.t ≤ b)).map fun x => (p.1, x) else []
+            | _ => delEver
+          let phase' := match op with
+            | .del _ _ _ => if phase = 0 then 1 else phase
+            | .cleantomb => if phase = 1 then 2 else phase
+            | .reopen => if phase = 2 then 3 else phase
+            | _ => phase
+          go r' ghost' delEver' phase' known rest (k + 1)
         | none =>
           match op, o with
           | .q a b, .rows got =>
             let want := r.query a b
             let (missing, extra) := rowDiff want got
             if extra.isEmpty ∧ !missing.isEmpty ∧ missing.all (fun m => ghost.contains m) then
-              -- adopt the implementation's view of these samples and continue
+              -- F28: adopt the implementation's view of these samples and continue
               let r' : Ref := { r with store := r.store.map fun p => (p.1, p.2.filter fun x => !missing.contains (p.1, x)) }
               let msg := s!"violation query-mismatch kind=identical-reappend-after-delete step={k} range=[{a},{b}] missing={missing.map fun m => s!"s{m.1}@{m.2.t}"}"
-              go r' ghost (some (known.getD msg)) rest (k + 1)
+              go r' ghost delEver phase (some (known.getD msg)) rest (k + 1)
+            else if missing.isEmpty ∧ !extra.isEmpty ∧ phase = 3 ∧ extra.all (fun m => delEver.contains m) then
+              -- F30: deleted samples came back after CleanTombstones + restart; adopt and continue
+              let r' : Ref := extra.foldl (fun (r : Ref) m =>
+                let xs := r.get m.1
+                r.set m.1 ((xs.filter fun x => decide (x.t < m.2.t)) ++ [m.2] ++ (xs.filter fun x => decide (m.2.t < x.t)))) r
+              let msg := s!"violation query-mismatch kind=deleted-back-after-cleantomb-restart step={k} range=[{a},{b}] extra={extra.map fun m => s!"s{m.1}@{m.2.t}"}"
+              go r' ghost (delEver.filter fun m => !extra.contains m) phase (some (known.getD msg)) rest (k + 1)
             else
               s!"violation query-mismatch kind=other step={k} range=[{a},{b}] got={renderOut o} want={renderQuery want}"
           | _, _ => s!"violation query-mismatch kind=other step={k} got={renderOut o}"
-    go {} [] none typed 0
+    go {} [] [] 0 none typed 0
 
 def suite : Suite := { name := "db", model := model, judge := judge }
 
